@@ -487,6 +487,10 @@ func histCases(g *vlib.Rng) {
 				if g.Chance(1, 3) {
 					o.ng = new(big.Int)
 				}
+				if g.Chance(1, 4) { // a negative na (signed Number): the theorems are stated for every integer na
+					o.na = negScalar(g, edges)
+					r.Hit("hist/mult-negative-na")
+				}
 			}
 			ops = append(ops, o)
 		}
